@@ -26,6 +26,7 @@ package query
 
 //@ func Or(criteria ...graph.Criteria) *cypherModel.Parenthetical
 //@   nosafety
+//@   nomod
 //@   ensures result != nil && fresh(result) && typeof(result.Expression) == *cypherModel.Disjunction
 
 //@ func Not(expression graph.Criteria) *cypherModel.Negation
@@ -33,10 +34,12 @@ package query
 
 //@ func And(criteria ...graph.Criteria) *cypherModel.Conjunction
 //@   nosafety
+//@   nomod
 //@   ensures result != nil && fresh(result)
 //@   ensures grouped: forall i int :: 0 <= i && i < len(result.expressionList.Expressions) ==> typeof(result.expressionList.Expressions[i]) != *cypherModel.Disjunction && typeof(result.expressionList.Expressions[i]) != *cypherModel.ExclusiveDisjunction
 
 //@ func Xor(criteria ...graph.Criteria) *cypherModel.ExclusiveDisjunction
 //@   nosafety
+//@   nomod
 //@   ensures result != nil && fresh(result)
 //@   ensures grouped: forall i int :: 0 <= i && i < len(result.expressionList.Expressions) ==> typeof(result.expressionList.Expressions[i]) != *cypherModel.Disjunction
